@@ -150,6 +150,19 @@ CLAIMED = {
    ref="DESIGN.md section 4 C13",
    note="trusted: Lean kernel + standard axioms; hand-written model tied by correspondence; source annotations are opaque to the model (identity only)",
    technique="Lean 4 proof (decision table by case analysis, lifted to lists) + differential correspondence"),
+ "C12": dict(
+   text=("Lean 4 theorem over a token-level model of render_parameter/render_signature and of Python's parameter-list grammar: for every "
+         "parameter list whose kinds are in the order Python allows, reading the rendered list back gives exactly the real parameters — "
+         "names, kinds, order, presence of defaults — and the tokens do not depend on the line width (params_roundtrip, "
+         "params_roundtrip_any_width, layout_independent). Tied to /repo by lexing the real render_signature output (3 widths) against "
+         "the model's tokens for all valid kind sequences up to 4 parameters and random longer ones; the whole stub of generated modules "
+         "(every function kind, classes one and two levels deep, coroutines, generators, random traced subsets) is parsed with ast and "
+         "compared with inspect.signature: each traced function exactly once inside its class path, decorator by kind, async, receiver "
+         "unannotated, nothing untraced."),
+   ref="DESIGN.md section 4 C12",
+   note=("partial: 'the stub parses as Python' and the placement/decorator clauses are observed with CPython's parser on generated modules; "
+         "Lean proves the parameter-list round trip on tokens (text lexing is the harness's)"),
+   technique="Lean 4 proof (induction over the parameter list with the renderer's and parser's state machines) + differential correspondence + ast/inspect oracle"),
 }
 
 NOT_YET = "check not built yet (build in progress; see DESIGN.md section 10)"
